@@ -12,3 +12,11 @@ func init() {
 		Rules: []RuleFn{ruleWSink("W-sink")},
 	})
 }
+
+func init() {
+	register(&Property{ID: "DEV", Explanation: "development run of all rules", Rules: []RuleFn{
+		ruleMArgs("M-args"), ruleMOnce("M-once"), ruleMShallow("M-shallow"), ruleRootCause("T-rootcause"),
+		ruleTypestate("E-TS"), ruleOnStack("G-onstack"), ruleCallback("M-cb"), ruleRecover("G-recover"),
+		ruleUserErr("T-usererr"), ruleHomeView("HOME-VIEW"),
+	}})
+}
